@@ -148,6 +148,12 @@ def run(ctx):
             for val in (bytes([b]), bytes([b, 0x41]), bytes([0x25, b])):
                 c = G.tlv(t, val)
                 check_comp(ctx, M, Component, c, t, val)
+    # typed-number components whose value is NOT a NonNegativeInteger (0, 3, 5, 7, 9 .. 2100 octets, high bytes set)
+    for t in (50, 52, 54, 56, 58):
+        for ln in (0, 3, 5, 6, 7, 9, 16, 300, 1785, 1786, 1800, 2100):
+            for fill in (b'\x00', b'\xff', b'\x01'):
+                val = fill * ln
+                check_comp(ctx, M, Component, G.tlv(t, val), t, val)
     for i in range(ctx.n(2500, 60000)):
         t, v = G.rand_comp_tv(rng)
         c = G.tlv(t, v)
@@ -262,7 +268,7 @@ def run(ctx):
     def canonical_numbers(n):
         for c in n:
             t, v = Component.get_type(c), bytes(Component.get_value(c))
-            if t in (50, 52, 54, 56, 58) and not (len(v) in (1, 2, 4, 8) and v == TVpack(int.from_bytes(v, 'big'))):
+            if t in (50, 52, 54, 56, 58) and len(v) in (1, 2, 4, 8) and v != TVpack(int.from_bytes(v, 'big')):
                 return False
         return True
 
@@ -317,9 +323,7 @@ def check_comp(ctx, M, Component, c, t, val):
     else:
         ctx.violation('Component.to_canonical_uri', 'canonical-uri-raises', f'raises {r1[2]} on a well-formed component', c)
     if r2[0] == 'ok':
-        canonical_number = t in (50, 52, 54, 56, 58) and len(val) in (1, 2, 4, 8) and \
-            val == TVpack(int.from_bytes(val, 'big'))
-        if t not in (50, 52, 54, 56, 58) or canonical_number:
+        if t not in (50, 52, 54, 56, 58) or len(val) not in (1, 2, 4, 8) or val == TVpack(int.from_bytes(val, 'big')):
             back = impl(Component.from_str, r2[1])
             if back[0] != 'ok' or bytes(back[1]) != c:
                 ctx.violation('Component.from_str/to_str', 'uri-roundtrip',
@@ -344,7 +348,8 @@ def check_name(ctx, M, Name, Component, tvs, n):
         cmp_res(ctx, 'Name.decode', w[1], M([7, w[1]]), d, lambda x: [name_b(x[0]), x[1]])
         if d[0] != 'ok' or name_b(d[1][0]) != n or d[1][1] != len(w[1]):
             ctx.violation('Name.decode/encode', 'wire-roundtrip', 'decode(encode(n)) != n', n)
-    all_canonical = all(t not in (50, 52, 54, 56, 58) or (len(v) in (1, 2, 4, 8) and v == TVpack(int.from_bytes(v, 'big')))
+    # the shorthand is used for values of 1/2/4/8 octets only; among those the round trip needs the shortest width
+    all_canonical = all(t not in (50, 52, 54, 56, 58) or len(v) not in (1, 2, 4, 8) or v == TVpack(int.from_bytes(v, 'big'))
                         for t, v in tvs)
     for site, fn, op, need in (('Name.to_canonical_uri', Name.to_canonical_uri, 6, False), ('Name.to_str', Name.to_str, 5, True)):
         u = impl(fn, n)
